@@ -87,7 +87,7 @@ func doPacket(e *dpadv.Env, a *dpadv.APkt, r *rand.Rand) {
 	v0 := r.Intn(4) // payload size / extension headers / staleness flavour of the first concretisation
 	for v := 0; v < *variants; v++ {
 		w := v0 + v
-		o := dpadv.BuildOpts{Payload: []int{16, 0, 100, 700}[w%4], HBH: w%4 == 2, E2E: w%4 >= 2, Stale: (w + r.Intn(2)*2) % 4, Rng: r}
+		o := dpadv.BuildOpts{Payload: []int{16, 0, 100, 700}[w%4], HBH: w%4 == 2, E2E: w%4 >= 2, Stale: (w + r.Intn(5)) % 5, Rng: r}
 		res := runOne(e, a, o)
 		if res == nil || !*c09 || res.O.Disp != "slow" || v > 0 {
 			continue
@@ -107,9 +107,11 @@ func doPacket(e *dpadv.Env, a *dpadv.APkt, r *rand.Rand) {
 			}
 		}
 		for _, l4 := range []string{"udp", "tcp", "scmperr", "scmpinfo", "trreq"} {
-			b := *a
-			b.L4 = l4
-			runOne(e, &b, dpadv.BuildOpts{Payload: 40, Rng: r})
+			for _, ext := range []int{0, 1, 2, 3} { // the L4 header also behind HBH and / or E2E extension headers
+				b := *a
+				b.L4 = l4
+				runOne(e, &b, dpadv.BuildOpts{Payload: 40, HBH: ext&1 != 0, E2E: ext&2 != 0, Rng: r})
+			}
 		}
 	}
 }
@@ -143,6 +145,11 @@ func main() {
 		case l.P != nil:
 			doPacket(e, l.P, r)
 		case l.Rand > 0:
+			// hop fields that expired only after the router handled its first packet can be built
+			// once the router is 3 s old (see Build); wait for that at most once per router
+			if d := 3100*time.Millisecond - time.Since(e.T0); d > 0 {
+				time.Sleep(d)
+			}
 			for i := 0; i < l.Rand; i++ {
 				a := dpadv.RandomPacket(e, r, l.MaxHops, l.Kinds)
 				doPacket(e, a, r)
